@@ -57,7 +57,7 @@ impl MT910 {
         // Parse mandatory fields
         let field_20 = parser.parse_field::<Field20>("20")?;
         let field_21 = parser.parse_field::<Field21NoOption>("21")?;
-        let field_25 = parser.parse_field::<Field25AccountIdentification>("25")?;
+        let field_25 = parser.parse_variant_field::<Field25AccountIdentification>("25")?;
 
         // Parse optional field 13D (comes before 32A)
         let field_13d = parser.parse_optional_field::<Field13D>("13D")?;
